@@ -3,6 +3,7 @@ package planner
 import (
 	"encoding/json"
 	"fmt"
+	"sort"
 	"strings"
 
 	"github.com/buildbuildio/pebbles/common"
@@ -67,9 +68,21 @@ func (sf ScrubFields) Clean(payload map[string]interface{}) {
 		return
 	}
 
-	for key, fields := range sf {
-		path := sf.unhash(key)
-		sf.clean(payload, path, fields)
+	// deepest paths first and then by name: cleaning an object can empty (and remove) its parents,
+	// the outcome must not depend on the iteration order of the map
+	keys := make([]string, 0, len(sf))
+	for key := range sf {
+		keys = append(keys, key)
+	}
+	sort.Slice(keys, func(i, j int) bool {
+		if di, dj := strings.Count(keys[i], "."), strings.Count(keys[j], "."); di != dj {
+			return di > dj
+		}
+		return keys[i] < keys[j]
+	})
+
+	for _, key := range keys {
+		sf.clean(payload, sf.unhash(key), sf[key])
 	}
 
 	return
